@@ -33,6 +33,7 @@ type Result struct {
 	Samples     []any            `json:"samples"`
 	Violations  []Violation      `json:"violations"`
 	NViolations int64            `json:"nviolations"`
+	Known       map[string]int64 `json:"known"`
 	Exhaustive  bool             `json:"exhaustive"`
 	Notes       []string         `json:"notes"`
 	WallS       float64          `json:"wall_s"`
@@ -54,6 +55,9 @@ type Ctx struct {
 	sub       string
 	sampleCap int
 	perSub    map[string]int
+
+	findings       []Finding
+	findingsLoaded bool
 }
 
 const maxViolationsKept = 40
@@ -152,9 +156,21 @@ func (c *Ctx) NotExhaustive(why string) {
 
 // Violation records a failing case.
 func (c *Ctx) Violation(key, kind string, detail map[string]any) {
+	v := Violation{Property: c.ID, Check: c.sub, Key: key, Kind: kind, Detail: detail}
+	if !c.findingsLoaded {
+		c.findings, _ = LoadFindings(Root() + "/known_findings.json")
+		c.findingsLoaded = true
+	}
+	if f := MatchFinding(c.findings, &v); f != nil {
+		if c.Res.Known == nil {
+			c.Res.Known = map[string]int64{}
+		}
+		c.Res.Known[f.What]++
+		return
+	}
 	c.Res.NViolations++
 	if len(c.Res.Violations) < maxViolationsKept {
-		c.Res.Violations = append(c.Res.Violations, Violation{Property: c.ID, Check: c.sub, Key: key, Kind: kind, Detail: detail})
+		c.Res.Violations = append(c.Res.Violations, v)
 	}
 }
 
